@@ -44,6 +44,14 @@ class FailingGzip:
     def open(self, filename, mode='rb', *a, **k):
         if self.armed and 'w' in mode:
             self.fired += 1
+            cb = getattr(self, 'during_failure', None)
+            if cb is not None:
+                # something else happens in the process at the moment the write fails (an independent build in another thread)
+                armed, self.armed = self.armed, False
+                try:
+                    cb()
+                finally:
+                    self.armed = armed
             if self.armed == 'open':
                 raise OSError(28, 'injected: no space left on device', filename)
             # the realistic case: the file is created/truncated, then writing fails part-way
@@ -212,6 +220,30 @@ def run_case(case):
         # ---- cache write failure: old content back
         proxy.armed = case.get('fault', 'write')
         fired_before = proxy.fired
+        if case.get('overlap'):
+            # an independent build (own cache, own tree) runs to completion in another thread while this build - which has
+            # moved its old cache file to its backup directory - is failing to write the new one
+            import threading
+
+            def other_build():
+                d = os.path.join(sb.top, 'other')
+                os.makedirs(d, exist_ok=True)
+
+                def w(bb, path):
+                    with open(path, 'w') as fh:
+                        fh.write('other')
+
+                def r2(bb):
+                    bb.build_file(os.path.join(d, 'out', 'o.txt'), 'w', w)
+                    return 1
+                FileBuilder.build(os.path.join(d, 'cache.gz'), 'other', r2)
+
+            def overlap():
+                th = threading.Thread(target=other_build)
+                th.start()
+                th.join()
+            proxy.during_failure = overlap
+            counters_ref['overlapping_builds'] += 1
         try:
             FileBuilder.build(cache, 'c16', root())
             if proxy.fired > fired_before:
@@ -219,6 +251,7 @@ def run_case(case):
         except OSError:
             pass
         proxy.armed = False
+        proxy.during_failure = None
         if proxy.fired == fired_before:
             counters_ref['cache_write_not_attempted'] += 1      # an unchanged build may legitimately skip the rewrite
         if cache_state() != c3:
@@ -286,7 +319,8 @@ def cases(draw):
     while counter[0] < n:
         forest.append(node(1))
     return {'forest': forest, 'cache': draw(st.sampled_from(['cache.gz', 'cache.gz', 'cä che/c.gz', '.c/d/cache'])),
-            'fail_first_write': draw(st.sampled_from(range(5))) == 0, 'fault': draw(st.sampled_from(['write', 'write', 'open']))}
+            'fail_first_write': draw(st.sampled_from(range(5))) == 0, 'fault': draw(st.sampled_from(['write', 'write', 'open'])),
+            'overlap': draw(st.sampled_from(range(3))) == 0}
 
 
 def is_nontrivial(case):
